@@ -13,11 +13,13 @@ Definition qlookup (m : list (Z * Q)) (k : Z) : Q :=
   match find (fun p => fst p =? k) m with Some p => snd p | None => 0%Q end.
 Definition outdeg (g : graph) (i : Z) : Z := Z.of_nat (length (filter (fun e => esrc e =? i) (edges g))).
 Definition qsumf {A : Type} (f : A -> Q) (l : list A) : Q := qsum (map f l).
+(** the same sum, kept in lowest terms while it is computed *)
+Definition qsumr {A : Type} (f : A -> Q) (l : list A) : Q := fold_right (fun x acc => Qred (f x + acc)) 0%Q l.
 Definition pr_step (g : graph) (d : Q) (s : list (Z * Q)) : list (Z * Q) :=
   let n := inject_Z (Z.of_nat (length (nodes g))) in
-  let dsum := qsumf (fun i => if outdeg g i =? 0 then qlookup s i else 0%Q) (nodes g) in
+  let dsum := qsumr (fun i => if outdeg g i =? 0 then qlookup s i else 0%Q) (nodes g) in
   let base := ((1 - d) / n + d * dsum / n)%Q in
-  map (fun j => (j, Qred (base + qsumf (fun e => if edst e =? j
+  map (fun j => (j, Qred (base + qsumr (fun e => if edst e =? j
                                                   then (d * qlookup s (esrc e) / inject_Z (outdeg g (esrc e)))%Q
                                                   else 0%Q) (edges g)))) (nodes g).
 Definition max_diff (a b : list (Z * Q)) : Q :=
@@ -32,21 +34,30 @@ Definition pr_init (g : graph) : list (Z * Q) :=
   map (fun v => (v, Qred (1 / inject_Z (Z.of_nat (length (nodes g)))))) (nodes g).
 Definition pagerank_model (g : graph) (d tol : Q) (k : nat) : list (Z * Q) := pr_iter g d tol k (pr_init g).
 
+(** [z / 2^k] in lowest terms (cheaper than Qred's gcd on 1074-bit denominators) *)
+Fixpoint dyadic (z : Z) (k : nat) : Q :=
+  match k with
+  | O => z # 1
+  | S k' => if Z.even z then dyadic (Z.div2 z) k' else z # Pos.pow 2 (Pos.of_nat k)
+  end.
+Definition k1074 : nat := 1074.
+Definition f64_q (b : Z) : option Q := option_map (fun z => dyadic z k1074) (f64_scaled b).
+
 (** model = implementation: the implementation's scores, given as binary64 bit patterns, denote
     exactly the model's rationals; damping and tolerance are passed as bit patterns too *)
 Definition chk_pagerank (g : graph) (dbits tbits : Z) (k : nat) (pr : list (Z * Z)) : bool :=
-  match f64_val dbits, f64_val tbits with
+  match f64_q dbits, f64_q tbits with
   | Some d, Some tol =>
-      let m := pagerank_model g (Qred d) (Qred tol) k in
+      let m := pagerank_model g d tol k in
       nodupb (map fst pr) && same_set (map fst pr) (nodes g)
-      && forallb (fun kv => match f64_val (snd kv) with
+      && forallb (fun kv => match f64_q (snd kv) with
                             | Some q => Qeq_bool q (qlookup m (fst kv))
                             | None => false
                             end) pr
   | _, _ => false
   end.
 Definition show_pagerank (g : graph) (dbits tbits : Z) (k : nat) :=
-  match f64_val dbits, f64_val tbits with
-  | Some d, Some tol => pagerank_model g (Qred d) (Qred tol) k
+  match f64_q dbits, f64_q tbits with
+  | Some d, Some tol => pagerank_model g d tol k
   | _, _ => []
   end.
